@@ -22,6 +22,16 @@ Theorem C14_scan_terminates isnl wa wb search lex_from feed_ok end_choice end_tr
 Proof. exact (scan_terminates isnl wa wb search lex_from feed_ok end_choice end_trial). Qed.
 Print Assumptions C14_scan_terminates.
 
+(* Above the bound the amount of fuel does not matter: the model is the while-loop, not an approximation of it. *)
+Theorem C14_fuel_irrelevant isnl wb search lex_from feed_ok end_choice end_trial :
+  (forall p m, search p = Some m -> p <= m /\ m <= wb) ->
+  (forall m, chain wb m (lex_from m)) ->
+  forall f1 f2 pos lc, wb + 2 - pos <= f1 -> wb + 2 - pos <= f2 -> pos <= wb + 1 ->
+  loop isnl search lex_from feed_ok end_choice end_trial f1 pos lc =
+  loop isnl search lex_from feed_ok end_choice end_trial f2 pos lc.
+Proof. exact (loop_fuel_irrelevant isnl wb search lex_from feed_ok end_choice end_trial). Qed.
+Print Assumptions C14_fuel_irrelevant.
+
 (* Matches are non-empty, inside the window, strictly increasing and non-overlapping; the search position
    strictly increases from turn to turn (pos <= match_start < next pos <= wb + 1). *)
 Theorem C14_scan_ordered (value : Type) isnl wa wb search lex_from feed_ok end_choice end_trial
